@@ -19,7 +19,11 @@ Tie:   T — Generated/SyncShape.lean (critical-section structure of every metho
            Do x getSentRequest / getSendingMessageCode (through add-only overlay exports), judged by the same specification.
            Also net/observation's table (concurrent Cancel), the block-wise reassembly table (expired, unswept entry), and the
            plain map with lwfr: LoadWithFunc whose callback looks its key up again (callback execution as an observable event).
+           … and with loswfr: LoadOrStoreWithFunc whose onLoad callback (under the WRITE lock) compares its argument with the
+           element in the map while it runs (overlay-only VerifPeek; Props/C14Current.lean).
            A panic of the code under test is the schedule's observation (r<t>:panic:…): reported with program and schedule.
+       X (limiter, for C16) — limiter_check: the real parallel-request limiter over the cooperative map (harness/c14/limiter_test.go),
+           judged by C16's driver; called from checks/c16.py, violations are reported under C16.
        stress — many goroutines on the unmodified code (real RWMutex), histories ordered by an atomic counter, judged.
 """
 import glob
@@ -33,7 +37,7 @@ from concurrent.futures import ThreadPoolExecutor
 
 from . import common
 
-MODULES = ["CoapVerif.Props.C14"]
+MODULES = ["CoapVerif.Props.C14", "CoapVerif.Props.C14Current"]
 CORPUS = os.path.join(common.VERIF, "corpus", "C14")
 WRITES = ("store", "los", "replace", "delete", "lad", "ladall", "swf", "loswf", "loswfn", "rwf", "dwf", "ladwf", "clos", "sweep")
 WHOLE = ("ladall", "copy", "len", "range", "range2", "sweep")
@@ -41,7 +45,7 @@ WHOLE = ("ladall", "copy", "len", "range", "range2", "sweep")
 
 # ---------------------------------------------------------------- build (overlay)
 
-def build_coop(ctx):
+def build_coop(ctx, exe_name="ht_c14coop.test"):
     ov = os.path.join(ctx.work, "overlay")
     os.makedirs(ov, exist_ok=True)
     mp = os.path.join(common.REPO, "pkg", "sync", "map.go")
@@ -67,7 +71,7 @@ def build_coop(ctx):
         open(os.path.join(ov, name), "w").write(open(os.path.join(common.HARNESS, "c14", "overlay", name + ".txt")).read())
         rep[os.path.join(common.REPO, *pkg, name)] = os.path.join(ov, name)
     json.dump({"Replace": rep}, open(oj, "w"))
-    exe = os.path.join(common.WORK, "ht_c14coop.test")
+    exe = os.path.join(common.WORK, exe_name)
     with common.Lock():
         rc, out = common.sh([common.GO, "test", "-c", "-tags", "verif c14coop", "-overlay", oj, "-o", exe, "./c14"],
                             cwd=common.HARNESS, env=common.GOENV, timeout=900)
@@ -215,6 +219,16 @@ def gen_programs(ctx):
             P.append(fmt_prog("mapcb", pre, [["lwfr:1:100"], other], ["load:1", "len"]))
     P.append(fmt_prog("mapcb", ["store:1:5"], [["lwfr:1:100"], ["delete:1"], ["los:1:9"]], ["load:1"]))
     P.append(fmt_prog("mapcb", [], [["lwfr:1:100"], ["store:1:7"]], ["load:1"]))
+    #     … and with loswfr: LoadOrStoreWithFunc whose onLoad callback (it runs under the WRITE lock) records its argument and
+    #              the element that is in the map under the key at that moment (overlay-only VerifPeek): the callback runs on
+    #              the element that is CURRENTLY in the map, whatever removes / replaces it concurrently (seeded C16-U)
+    for pre in (["store:1:5"], ["store:1:5", "store:2:6"]):
+        for other in (["delete:1"], ["rwf:1:del"], ["dwf:1"], ["ladwf:1:100"], ["ladall"], ["lad:1"], ["replace:1:7"], ["store:1:7"],
+                      ["rwf:1:inc:1"], ["loswfr:1:100:8"], ["lwfr:1:100"], ["delete:1", "store:1:8"], ["delete:1", "loswfr:1:100:8"]):
+            P.append(fmt_prog("mapcb", pre, [["loswfr:1:100:9"], other], ["load:1", "len"]))
+    P.append(fmt_prog("mapcb", ["store:1:5"], [["loswfr:1:100:9"], ["rwf:1:del"], ["loswfr:1:100:8"]], ["load:1"]))
+    P.append(fmt_prog("mapcb", ["store:1:5"], [["loswfr:1:100:9"], ["delete:1"], ["los:1:8"]], ["load:1"]))
+    P.append(fmt_prog("mapcb", [], [["loswfr:1:100:9"], ["loswfr:1:100:8"], ["rwf:1:del"]], ["load:1"]))
     #     midtab = udp/client's table of pending message IDs on a real Conn (pend = the registration writeMessage makes, take =
     #              handleSpecialMessages for an acknowledgement: "obtained the element, ran its handler" is LoadAndDelete's
     #              result, has = look-up): two takers of one element, at most one obtains it
@@ -322,7 +336,7 @@ def clause_of(prog):
         return "store-if-absent"
     if "sweep" in ops:
         return "sweep-only-expired"
-    if any(o in ops for o in ("los", "clos", "loswf", "loswfn")):
+    if any(o in ops for o in ("los", "clos", "loswf", "loswfn", "loswfr")):
         return "store-if-absent"
     if any(o in ops for o in ("lwf", "rwf", "dwf", "ladwf", "swf")):
         return "callbacks-see-current-value"
@@ -510,6 +524,127 @@ def stress(ctx, art):
     ctx.cov["evaluations"] += len(hs)
     ctx.cov["stress_histories"] = len(hs)
     ctx.cov["stress_nontrivial"] = nt
+
+
+# ---------------------------------------------------------------- the parallel-request limiter over the cooperative map (C16 x C14)
+
+LIM_CFGS = [(1, 1), (2, 1), (1, 2), (0, 1), (2, 2)]
+LIM_SHAPES = [
+    [["req:0:0"], ["req:1:0"]],
+    [["req:0:0"], ["req:1:0"], ["req:2:0"]],
+    [["req:0:0"], ["req:1:0"], ["req:2:1"]],
+    [["req:0:0", "req:2:0"], ["req:1:0"]],                    # a client goroutine that sends back to back
+    [["req:0:0"], ["req:1:0"], ["cancel:1"]],
+    [["req:0:0"], ["req:1:0"], ["cancel:0"]],
+    [["req:0:0"], ["req:1:0"], ["req:2:0"], ["cancel:1"]],
+    [["req:0:0"], ["req:1:0"], ["req:2:1"], ["cancel:2"]],
+]
+LIM_SHAPES_THOROUGH = [
+    [["req:0:0", "req:3:0"], ["req:1:0"], ["req:2:0"]],
+    [["req:0:0", "req:2:0"], ["req:1:0", "req:3:0"]],
+    [["req:0:0"], ["req:1:0"], ["req:2:0"], ["cancel:2"]],
+    [["req:0:0", "req:3:1"], ["req:1:1"], ["req:2:0"], ["cancel:1"]],
+]
+
+
+def limiter_lines(ctx):
+    L = []
+    shapes = LIM_SHAPES + (LIM_SHAPES_THOROUGH if ctx.tier == "thorough" else [])
+    for (l, e) in LIM_CFGS:
+        for ths in shapes:
+            L.append("lim %d %d %s max=%d" % (l, e, " ".join("t%d=%s" % (i, ",".join(t)) for i, t in enumerate(ths)),
+                                             6000 if ctx.tier == "thorough" else 1500))
+    return L
+
+
+def limiter_judge_one(ctx, coop, driver16, line, tag="limmin"):
+    """line = `lsched <i,…> lim L E t0=…` -> (observed history, verdict of the C16 judge)"""
+    out = run_harness(ctx, coop, "TestC14Limiter", [line], tag) or []
+    hs = [o.split(" | ", 1)[1] for o in out if o.startswith("lsched ") and " | cfg " in o]
+    if not hs:
+        if any(o.startswith("lsched ") and o.endswith("| diverged") for o in out):
+            return "diverged (the tree under test has no such schedule)", "ok"
+        return None, None
+    rc, j, _ = common.pipe_lines([driver16, "judge"], [hs[0]])
+    return hs[0], (j[0] if j else None)
+
+
+def limiter_check(ctx, coop, driver16, prop="C16", corpus_lines=()):
+    """The real limitParallelRequests over the cooperative-mutex Map (harness/c14/limiter_test.go): every critical section of
+    the endpoint table is a scheduling point, all interleavings of 2-3 requests (+ a context cancellation) on one and two paths
+    are executed and every history is judged by the C16 specification (drv_c16 judge) and checked for trace inclusion in the
+    limiter model (drv_c16 model).  Violations are reported under `prop` with the clause names of C16."""
+    for l in corpus_lines:                       # minimised past failures first: `lsched <i,…> lim L E t0=…`
+        h, j = limiter_judge_one(ctx, coop, driver16, l, tag="limcorpus")
+        ctx.count("limiter over the cooperative map: corpus schedules")
+        if j and j != "ok":
+            clause = j.split()[1].rstrip(":") if len(j.split()) > 1 else "?"
+            ctx.violations.append(common.Violation(clause, "%s:coop:%s:%s" % (prop, clause, l), "%s  [corpus schedule `%s`: %s]" % (j, l, h),
+                                                   {"input": ["coop " + l], "observed": h, "judge": j}))
+    out = run_harness(ctx, coop, "TestC14Limiter", limiter_lines(ctx), "lim")
+    if out is None:
+        return
+    runs, buf = [], []
+    for l in out:
+        if l.startswith("# "):
+            prog = l[2:].split(" schedules=")[0]
+            if l.endswith("truncated"):
+                ctx.count("limiter programs with truncated schedule enumeration")
+            runs += [(prog, b) for b in buf]
+            buf = []
+        elif l.startswith("lsched "):
+            if " | cfg " in l:
+                buf.append(l)
+            else:
+                ctx.count("limiter schedules whose re-execution diverged")
+        else:
+            ctx.violations.append(common.Violation("no-crash", "%s:coop-harness:%s" % (prop, l[:80]), "harness line: " + l, {"input": [], "observed": l}))
+    hist = {}
+    for prog, l in runs:
+        hist.setdefault(l.split(" | ", 1)[1], (prog, l.split(" | ", 1)[0]))
+    hs = list(hist)
+    judge = drive(driver16, "judge", hs)
+    # trace inclusion in the limiter model: histories the judge accepts whose windows are small (the model interleaves the
+    # events of one window in every order; windows grow only when arrivals park between look-up and callback)
+    small = [i for i, h in enumerate(hs) if judge and judge[i] == "ok" and max(seg.count("&") for seg in h.split(";")) < 4]
+    mres = drive(driver16, "model", [hs[i] for i in small])
+    model = None
+    if mres is not None:
+        model = ["ok (not replayed)"] * len(hs)
+        for i, m in zip(small, mres):
+            model[i] = m
+        ctx.count("limiter over the cooperative map: histories checked for trace inclusion in the model", len(small))
+    if judge is None or model is None:
+        ctx.broken.append(("model", "%s driver run failed (limiter over the cooperative map)" % prop, ""))
+        return
+    ctx.count("limiter over the cooperative map: schedules executed", len(runs))
+    ctx.count("limiter over the cooperative map: distinct histories judged", len(hs))
+    ctx.count("limiter over the cooperative map: histories with a thread parked in the middle of a limiter operation (several events per line)",
+              sum(1 for h in hs if "& ping" in h))
+    seen = set()
+    nviol = 0
+    # the shortest violating history of each clause is the one reported
+    for h, j, m in sorted(zip(hs, judge, model), key=lambda x: (x[1] == "ok", len(x[0]))):
+        prog, sched = hist[h]
+        replay_line = "%s %s" % (sched, prog)
+        if j != "ok":
+            clause = j.split()[1].rstrip(":") if len(j.split()) > 1 else "?"
+            if clause in seen:
+                ctx.count("further violations of %s (limiter over the cooperative map)" % clause)
+                continue
+            seen.add(clause)
+            nviol += 1
+            ctx.violations.append(common.Violation(
+                clause, "%s:coop:%s:%s" % (prop, clause, prog),
+                "%s  [real limiter over the cooperative-mutex table, schedule %s of `%s`: %s]" % (j, sched.split()[1], prog, h),
+                {"input": ["coop " + replay_line], "observed": h, "judge": j}))
+        elif not m.startswith("ok"):
+            if len([b for b in ctx.broken if b[1] == "C16 model vs implementation (cooperative map)"]) < 3:
+                ctx.broken.append(("correspondence", "C16 model vs implementation (cooperative map)", "%s :: %s :: %s" % (m, replay_line, h)))
+        else:
+            ctx.cov["traces_validated_against_impl"] = ctx.cov.get("traces_validated_against_impl", 0) + 1
+    ctx.cov["evaluations"] = ctx.cov.get("evaluations", 0) + len(runs)
+    return nviol
 
 
 def run(ctx):
